@@ -177,7 +177,9 @@ PROPS = {
             "theorems": ["RModel.Impl.encode_length", "RModel.Impl.decode_encode", "RModel.Impl.prefix_rejected",
                          "RModel.Impl.decode_no_panic", "RModel.Impl.roundtrip_wf", "RModel.BSet.canon_ext"] + F_SERIAL + BYTEIN + BYTEIN_DEC,
             "modules": DEFAULT_MODULES + [FACTS, "RProofs.Properties.C05", "RProofs.ByteInput", "RProofs.ByteInputDecode"],
-            "owns": {"ser", "rd", "rdfail", "wrfail", "wrfailall", "rdsplit", "trunc", "wf", "dig", "add", "or", "mkrepr", "card", "addstride", "bytein"}},
+            # "… that supports all further operations": the edits of a decoded bitmap in these suites are this property's too
+            "owns": {"ser", "rd", "rdfail", "wrfail", "wrfailall", "rdsplit", "trunc", "wf", "dig", "add", "or", "mkrepr", "card", "addstride", "bytein",
+                     "rem", "remr", "addr", "flip", "cadd", "crem", "iand", "ior", "ixor", "iandnot", "eq"}},
     "C06": {"suites": [("spec", 1.0)],
             "theorems": ["RModel.FormatSpec.encode_conforms", "RModel.FormatSpec.conformant_decodes", "RModel.BSet.canon_ext"] + F_SERIAL,
             "modules": DEFAULT_MODULES + [FACTS, "RProofs.Properties.C06"], "owns": {"spec", "ser", "card", "toarr"}},
@@ -188,8 +190,8 @@ PROPS = {
             # failure of independence (also when the edited result itself is wrong: its own chunks alias one another)
             # 64-bit counterparts: in the `r64` suite only the sharing observations are this property's (`alias64`: a bucket reachable from two
             # objects must be flagged in both; `dig64`: an input re-observed after its result was edited)
-            "owns_fn": lambda op, mm, suite: (op in ("alias64", "dig64")) if suite.split(":")[-1] == "r64" else ("agg" not in suite) or (op == "aggindep" and not mm.get("got", "").startswith("panic")) or (op in AGG_OPS | {"dig"} and
-            mm.get("expected", "").split(" ")[:1] == mm.get("got", "").split(" ")[:1] and not mm.get("got", "").startswith("panic")),
+            "owns_fn": lambda op, mm, suite: (op in ("alias64", "dig64")) if suite.split(":")[-1] == "r64" else ("agg" not in suite) or (op == "aggindep" and not mm.get("got", "").startswith("panic")) or ((op == "dig" or (op in AGG_OPS and
+            mm.get("expected", "").split(" ")[:1] == mm.get("got", "").split(" ")[:1])) and not mm.get("got", "").startswith("panic")),
             "theorems": ["RModel.Impl.safe_nil", "RModel.Impl.safe_iff", "RModel.Impl.safe_unflagged_private",
                          "RModel.Impl.safe_gate", "RModel.Impl.safe_cloneBitmap", "RModel.Impl.safe_appendCopy",
                          "RModel.Impl.safe_appendFresh", "RModel.Impl.safe_insertFresh", "RModel.Impl.safe_removeSlot",
@@ -319,7 +321,7 @@ for _k, _v in _LT.items():
     PROPS[_k].setdefault("level_note", "Proved about the model: the theorems listed in the evidence file (coverage.theorems)." + _LN_TAIL)
 
 # pinned sharing skeletons (calls of the copy-on-write primitives with their arguments, clones, flag assignments)
-COW_OF = {"C07": ("", "64"), "C08": ("",), "C13": ("",), "C11": ("",), "C12": ("",), "C16": ("",), "C01": ("",), "C02": ("",),
+COW_OF = {"C05": ("",), "C10": ("",), "C07": ("", "64"), "C08": ("",), "C13": ("",), "C11": ("",), "C12": ("",), "C16": ("",), "C01": ("",), "C02": ("",),
           "C17": ("64",), "C19": ("64", "BSI32"), "C20": ("64", "BSI32")}
 for _p, _g in CMP_OF.items():
     PROPS[_p]["theorems"] = list(PROPS[_p].get("theorems", [])) + CMP(*_g) + \
